@@ -278,6 +278,10 @@ impl Prop for C09 {
             push("parameterized", format!("parameterized|names={pool}|params=1|inst=3"), vec![p1.clone(), format!("Mid ::= {pool} {{ BOOLEAN }}"), format!("Mie ::= {pool} {{ UTF8String }}"), format!("Mif ::= {pool} {{ Mid }}")], vec!["Mid ::= SEQUENCE { v BOOLEAN, n INTEGER }".into(), "Mie ::= SEQUENCE { v UTF8String, n INTEGER }".into(), "Mif ::= SEQUENCE { v Mid, n INTEGER }".into()], vec!["Mid", "Mie", "Mif"]);
             let p2 = format!("{pool} {{ INTEGER:max, T }} ::= SEQUENCE {{ v T, n INTEGER (0..max) }}");
             push("parameterized", format!("parameterized|names={pool}|params=2|inst=2"), vec![p2.clone(), format!("Mid ::= {pool} {{ 7, BOOLEAN }}"), format!("Mie ::= {pool} {{ 300, NULL }}")], vec!["Mid ::= SEQUENCE { v BOOLEAN, n INTEGER (0..7) }".into(), "Mie ::= SEQUENCE { v NULL, n INTEGER (0..300) }".into()], vec!["Mid", "Mie"]);
+            // one instantiation of a template with a governed dummy and a dummy type, in both parameter orders
+            push("parameterized", format!("parameterized|names={pool}|form=value-then-type|inst=1"), vec![p2.clone(), format!("Mid ::= {pool} {{ 7, BOOLEAN }}")], vec!["Mid ::= SEQUENCE { v BOOLEAN, n INTEGER (0..7) }".into()], vec!["Mid"]);
+            let p2r = format!("{pool} {{ T, INTEGER:max }} ::= SEQUENCE {{ v T, n INTEGER (0..max) }}");
+            push("parameterized", format!("parameterized|names={pool}|form=type-then-value|inst=1"), vec![p2r.clone(), format!("Mid ::= {pool} {{ BOOLEAN, 7 }}")], vec!["Mid ::= SEQUENCE { v BOOLEAN, n INTEGER (0..7) }".into()], vec!["Mid"]);
             let p3 = format!("{pool} {{ T, U, INTEGER:max }} ::= CHOICE {{ a T, b U, c INTEGER (0..max) }}");
             push("parameterized", format!("parameterized|names={pool}|params=3|inst=1"), vec![p3.clone(), format!("Mid ::= {pool} {{ BOOLEAN, NULL, 9 }}")], vec!["Mid ::= CHOICE { a BOOLEAN, b NULL, c INTEGER (0..9) }".into()], vec!["Mid"]);
         }
